@@ -411,14 +411,9 @@ class LabelMapperRange(_LabelMapper):
         """
         Test a list of tuple representing ranges of values has no overlapping ranges.
         """
-        d = dict(ranges)
-        start = ranges[:, 0]
-        end = ranges[:, 1]
-        start.sort()
-        l = []
-        for v in start:
-            l.append([v, d[v]])
-        l = np.array(l)
+        # sort the ranges by their start, each range keeping its own end
+        # (ranges sharing a start value must not be collapsed into one)
+        l = ranges[np.argsort(ranges[:, 0], kind='stable')]
         start = np.roll(l[:, 0], -1)
         end = l[:, 1]
         if any((end - start)[:-1] > 0) or any(start[-1] > end):
